@@ -208,7 +208,14 @@ fn make_job(sh: &Arc<Shared>, id: usize, dur_us: u32, body: Body, res: mpsc::Sen
 const WATCHDOG: Duration = Duration::from_secs(30);
 const RETRY_WATCHDOG: Duration = Duration::from_secs(10);
 
+/// runs of hand-written cases with CPU hogs in this process (they are expensive: capped)
+static HOG_RUNS: AtomicUsize = AtomicUsize::new(0);
+
 pub fn run_direct(case: &DirectCase) -> Outcome {
+    if case.hogs > 0 && HOG_RUNS.fetch_add(1, Ordering::SeqCst) >= 6 {
+        // the reproduction aid is tried six times per process, further repeats are skipped
+        return Outcome::pass(false, &["hog-case-skipped"]);
+    }
     let threads = case.threads.clamp(1, 6) as usize;
     let limit = case.limit.clamp(1, 8) as usize;
     let idle = Duration::from_millis(case.idle_ms.clamp(1, 50) as u64);
